@@ -128,7 +128,9 @@ class MinimizeActionCosts(PlanQualityMetric):
         return (
             isinstance(other, MinimizeActionCosts)
             and self._default == other._default
-            and self._costs == other._costs
+            # actions are mutable and hashed by content: the maps are re-keyed, so that
+            # an action edited after the creation of the metric is still found
+            and dict(self._costs.items()) == dict(other._costs.items())
         )
 
     def __hash__(self):
